@@ -10,7 +10,7 @@ pub const EL_NAMES: &[&str] = &["a", "b", "c", "p:d", "q:e", "f"];
 pub const ATTR_NAMES: &[&str] = &["x", "y", "z", "p:w", "id", "xml:lang", "dflt", "fx", "q:w", "q:x"];
 pub const BAD_NAMES: &[&str] = &["1a", "a b", "a<", "", " ", "a&b", "a x='1'", "x>y", "-a", "a/"];
 pub const ODD_NAMES: &[&str] = &["a:b:c", "zz:a", ":a", "a:"];
-pub const PI_TARGETS: &[&str] = &["t", "u", "pi-x"];
+pub const PI_TARGETS: &[&str] = &["t", "u", "pi-x", "x", "xm", "X", "xmlx"];
 pub const SAFE_CHARS: &[&str] = &["a", "b", "é", "𝒳", "\u{301}", " ", "1"];
 pub const WS_CHARS: &[&str] = &["\t", "\n"];
 pub const MARKUP_CHARS: &[&str] = &["<", ">", "&", "'", "\"", "-", "]", "?", "!", "[", ";", "#", "\r"];
